@@ -145,7 +145,8 @@ def c10_check(case):
 
 
 # ---------------------------------------------------------------------- C11
-VNAMES = ['verbatim', 'lstlisting', 'Verbatim', 'listing', 'verbatimtab', 'myenv', 'code*']
+VNAMES = ['verbatim', 'lstlisting', 'Verbatim', 'listing', 'verbatimtab', 'myenv', 'code*', 'align', 'equation*', 'array']
+USER_NAMES = ('myenv', 'code*', 'align', 'equation*', 'array')      # passed via skip_envs (some are also math environment names)
 VBODY = ['x', '$ {', '\\x{', '% }\n y', 'a\\begin{b}', ']} $$', '\\end{other}', '\\begin{verbatim} x', '\\[ {', 'a\n\nb', '\n }{ \n']
 V_CTX = ['%s', 'pre\n%s post', '\\begin{a}%s\\end{a}', '\\begin{a}\\begin{b}%s\\end{b}x\\end{a}', '\\section{t}%s',
          '\\begin{itemize}\\item %s\\end{itemize}']
@@ -155,7 +156,7 @@ def c11_check(case):
     name, body, ctx = case
     inner = '\\begin{%s}%s\\end{%s}' % (name, body, name)
     s = ctx % inner
-    skip = (name,) if name in ('myenv', 'code*') else ()
+    skip = (name,) if name in USER_NAMES else ()
     out = []
     if body.lstrip()[:1] in '{[' or body.endswith('\\') or '%' in body.split('\n')[-1]:
         return out
